@@ -344,6 +344,8 @@ func TestGrid(t *testing.T) {
 			}
 			if f := checkNode(mask, tr, prefix, l, index, st); f != nil {
 				fail, failCase = f, Case{Mask: mask, Class: "grid", Len: l, Prefix: vk.U64(prefix)}
+			} else if index&15 == 0 {
+				checker.Remember(Case{Mask: mask, Class: "grid", Len: l, Prefix: vk.U64(prefix)})
 			}
 		})
 		if fail != nil {
